@@ -39,7 +39,7 @@ def run(ctx):
     if thr:
         gen_ops.THRESHOLDS[:] = sorted(set(thr) | set(gen_ops.THRESHOLDS))
     names = gen_ops.MORE_OPS + gen_ops.CORE_OPS
-    items = gen_ops.gen_items(r, names, ctx.scale(650, 120000), ctx.thorough)
+    items = gen_ops.gen_items(r, names, ctx.scale(450, 120000), ctx.thorough)
     # directed: the repo's own v2 vector of F5, and (logand nil)
     items.append({"name": "op_logior", "flags": gen_ops.NEW_COST_MODEL, "args": [bytes.fromhex("400000"), b"\x01"], "term": b"", "heavy": False})
     items.append({"name": "op_logand", "flags": gen_ops.NEW_COST_MODEL, "args": [b""], "term": b"", "heavy": False})
